@@ -146,3 +146,7 @@ impl EncoderValue for ConnectionClose<'_> {
         }
     }
 }
+
+#[cfg(all(aws_s2n_quic_verif, test))]
+#[path = "/verif/harness/core/frame_connection_close.rs"]
+mod verif;
